@@ -37,12 +37,19 @@ def _discovery_order(ctx: Ctx) -> None:
     """load_config: merchants_file setting first, else config/merchant_categories.csv, else nothing; never config/merchants.rules by itself."""
     proj = ctx.proj
     lc = proj.func('config_loader.load_config')
-    ifs = [s for s in ast.walk(lc.node) if isinstance(s, ast.If) and src(s.test) == 'merchants_file']
-    if len(ifs) != 1:
-        ctx.unknown('C15.R1', lc, 'branch on merchants_file not found in load_config')
-    t = ifs[0]
-    setting_first = any(isinstance(n, ast.Assign) and src(n.targets[0]) == "config['_merchants_file']" and src(n.value) == 'merchants_path' for n in ast.walk(ast.Module(body=t.body, type_ignores=[])))
-    csv_else = any(isinstance(n, ast.Assign) and src(n.targets[0]) == "config['_merchants_file']" and src(n.value) == 'csv_file' for n in ast.walk(ast.Module(body=t.orelse, type_ignores=[])))
+    from ._config import config_stores
+    lfl = get_flow(proj, lc)
+    stores = [(g, v) for g, v in config_stores(lfl, '_merchants_file') if not (isinstance(v, ast.Constant) and v.value is None)]
+    if not stores:
+        ctx.unknown('C15.R1', lc, "no store to config['_merchants_file'] found in load_config")
+    setting_first = csv_else = False
+    for g, v in stores:
+        lits = dict(lfl.cfg.guard_literals(g))
+        at = lfl.atoms(v, g)
+        if lits.get('merchants_file') is True and 'key:config:merchants_file' in at:
+            setting_first = True
+        if lits.get('merchants_file') is False and "const:'merchant_categories.csv'" in at:
+            csv_else = True
     ctx.check(setting_first and csv_else, 'C15.R1', lc, 'discovery-order', 'rules are discovered from the merchants_file setting, else from config/merchant_categories.csv',
               'load_config no longer discovers rules as (setting, else legacy CSV): the typestate model of the migration check does not apply')
     auto = any(isinstance(n, ast.Constant) and n.value == 'merchants.rules' for n in ast.walk(lc.node))
@@ -114,7 +121,7 @@ def r1_r2(ctx: Ctx, mg: FuncInfo) -> None:
     # the settings append does not duplicate
     for a in appends:
         g = cfg.guard_literals(fl.stmt_of(a.node))
-        ok = any("'merchants_file:' not in" in t and tr for t, tr in g) and a.kind == 'append'
+        ok = any("'merchants_file:' in" in t and not tr for t, tr in g) and a.kind == 'append'
         ctx.check(ok, 'C15.R1', mg, 'pointer:idempotent', 'merchants_file is appended only when absent', f'settings update {a.label} under {sorted(g)}', a.node)
     # the handler reports failure
     rets = [r for r in ast.walk(mg.node) if isinstance(r, ast.Return) and isinstance(r.value, ast.Constant)]
